@@ -32,6 +32,13 @@ func (e *Executor) VerifRefresh(ctx context.Context) error {
 	return err
 }
 
+// VerifFetch and VerifInstall are the two halves of VerifRefresh (so that a harness can explore only the second).
+func (e *Executor) VerifFetch(ctx context.Context) (*Planner, *graphql.Schema, error) {
+	return e.syncer.schemaSyncer.FetchPlannerAndSchema(ctx)
+}
+
+func (e *Executor) VerifInstall(p *Planner, schema *graphql.Schema) { e.setPlanner(p, schema) }
+
 // VerifFieldServices lists, per "Type.field" of the merged schema, the services able to resolve it.
 func (e *Executor) VerifFieldServices() map[string][]string {
 	out := map[string][]string{}
